@@ -168,3 +168,40 @@ SPECS["C02"] = {
     "assumptions": ["pre-emption bound", "fair-yield rule for polling loops", "sequential consistency"],
     "outside": ["> 2 workers", "cascades deeper than 3", "ECAL-level addEventAndWait (same Go code path underneath)"],
 }
+
+SPECS["C01"] = {
+    "explanation": "Real rule index (kind tree with wildcards, state matcher bit masks, regexp patterns), processor trigger cache, scope filter and "
+                   "suppression; rule sets, kind patterns (symbolic segment bytes), state patterns/values (symbolic kinds, symbolic float64/bytes) and event "
+                   "histories are symbolic; results are compared with a small reference matcher written from the statement.",
+    "level_text": "bounded: for all rule sets / events / histories within the stated sizes the set (multiset) of fired rules equals the reference",
+    "level_note": "trusts go/ssa, gosym (maps with symbolic keys split on key equalities), z3; R<=3 rules, P<=2 patterns, S<=3 segments, 2 state keys",
+    "harnesses": [
+        {"name": "H1-match-kinds", "pkg": "engine", "files": ["engine/c01.go"], "fn": "VerifC01Match",
+         "what": "2 rules x <=2 patterns x <=2 segments over {a,b,*}, event kinds <=3 segments over {a,b,c}, no state", "reach": ["built", "matched"],
+         "quick": {"params": {"R": 2, "P": 2, "S": 2, "STATE": 0}, "unwind": 60, "wall_s": 600},
+         "thorough": {"params": {"R": 3, "P": 2, "S": 2, "STATE": 0}, "unwind": 60, "wall_s": 2400}},
+        {"name": "H1-match-state", "pkg": "engine", "files": ["engine/c01.go"], "fn": "VerifC01Match",
+         "what": "2 rules x 1 pattern x 1 segment, state patterns over 2 keys x {nil,number,string,regexp} vs event values {absent,nil,number,string,list}", "reach": ["built", "matched"],
+         "quick": {"params": {"R": 2, "P": 1, "S": 1, "STATE": 1, "KEYS": 1}, "unwind": 60, "wall_s": 600},
+         "thorough": {"params": {"R": 2, "P": 1, "S": 1, "STATE": 1, "KEYS": 2}, "unwind": 60, "wall_s": 2400}},
+        {"name": "H3-history", "pkg": "engine", "files": ["engine/c01.go"], "fn": "VerifC01History",
+         "what": "running 1-worker processor, 2 rules, sequence of events with symbolic names {n1,n2} and kinds (trigger cache)", "reach": ["event-done"],
+         "quick": {"params": {"R": 2, "S": 2, "EVENTS": 2}, "unwind": 60, "wall_s": 600},
+         "thorough": {"params": {"R": 2, "S": 2, "EVENTS": 3}, "unwind": 60, "wall_s": 2400}},
+        {"name": "H4-scope-suppression", "pkg": "engine", "files": ["engine/c01.go"], "fn": "VerifC01ScopeSuppression",
+         "what": "cascade scope over 4 paths (defined/allow symbolic), per-rule scope requirements over 4 paths and suppression matrix symbolic", "reach": ["built", "processed"],
+         "quick": {"params": {"R": 2}, "unwind": 60, "wall_s": 600},
+         "thorough": {"params": {"R": 3}, "unwind": 60, "wall_s": 2400}},
+        {"name": "H2-mask-63", "pkg": "engine", "files": ["engine/c01.go"], "fn": "VerifC01Mask",
+         "what": "63 state rules on one kind, event value symbolic float64", "reach": ["matched"],
+         "quick": {"params": {"N": 63}, "unwind": 80, "wall_s": 600}, "thorough": {"params": {"N": 63}, "unwind": 80, "wall_s": 600}},
+        {"name": "H2-mask-64", "pkg": "engine", "files": ["engine/c01.go"], "fn": "VerifC01Mask",
+         "what": "64 state rules on one kind", "reach": ["matched"],
+         "quick": {"params": {"N": 64}, "unwind": 80, "wall_s": 600}, "thorough": {"params": {"N": 64}, "unwind": 80, "wall_s": 600}},
+        {"name": "H2-mask-65", "pkg": "engine", "files": ["engine/c01.go"], "fn": "VerifC01Mask",
+         "what": "65 state rules on one kind (beyond the 64-bit mask: listed known finding)", "reach": ["matched"],
+         "quick": {"params": {"N": 65}, "unwind": 80, "wall_s": 600}, "thorough": {"params": {"N": 65}, "unwind": 80, "wall_s": 600}},
+    ],
+    "assumptions": ["segment alphabet {a,b,*} / {a,b,c}", "map iteration in insertion order (Go randomises; both orders give the same sets here)"],
+    "outside": ["more than 64 state rules on one kind (see known findings)", "regexps other than ^a", "> 1 worker (ordering is C10)"],
+}
